@@ -63,7 +63,7 @@ def expected_property(drv, spec_name, gattr, vattr, g, v, values=None, track=Non
         prop["rule"] = v["rule"]
     els = []
     for e in v["elements"]:
-        el = getattr(vec, e["attr"])
+        el = D.element_in(vec, e["attr"])
         if not (track.e[(gattr, vattr, e["attr"])] if track is not None else el.enabled):
             continue
         raw = values[e["name"]] if values is not None and e["name"] in values else el.value
